@@ -1045,3 +1045,448 @@ Proof.
       destruct (read_content _ _ _ _ _ _); try reflexivity.
       destruct (assoc_get beq _ orc) as [[]|]; try reflexivity. destruct (table_get id); reflexivity.
 Qed.
+
+(* ---- whole runs of the reader ---- *)
+Lemma reader_step_valid : forall orc chunk st valid encs prev r st' valid' encs' prev',
+  iter_step orc chunk st valid encs prev = SYield r st' valid' encs' prev' ->
+  table_get (r_id r) = Some valid'.
+Proof.
+  intros orc chunk st valid encs prev r st' valid' encs' prev' H.
+  unfold iter_step in H.
+  destruct (read_header chunk valid st) as [|level name id opts line st1| |]; try discriminate.
+  cbv zeta in H.
+  destruct_matches H; inversion H; subst; cbn [r_id]; assumption.
+Qed.
+
+(* the iterations of iter_sections that yield, with the loop variables made visible *)
+Inductive rsteps (orc : oracle) (chunk : nat) :
+  rstate -> list bytes -> list (option pv) -> nat -> list record ->
+  rstate -> list bytes -> list (option pv) -> nat -> Prop :=
+| rsteps_nil : forall st v e p, rsteps orc chunk st v e p [] st v e p
+| rsteps_cons : forall st v e p r st1 v1 e1 p1 rs st2 v2 e2 p2,
+    iter_step orc chunk st v e p = SYield r st1 v1 e1 p1 ->
+    rsteps orc chunk st1 v1 e1 p1 rs st2 v2 e2 p2 ->
+    rsteps orc chunk st v e p (r :: rs) st2 v2 e2 p2.
+
+(* iter_loop is exactly this iteration *)
+Lemma iter_loop_rsteps : forall fuel orc chunk st v e p acc out t,
+  iter_loop fuel orc chunk st v e p acc = (out, t) ->
+  exists rs st' v' e' p',
+    out = rev acc ++ rs /\ rsteps orc chunk st v e p rs st' v' e' p' /\
+    (t = TFuel \/ forall r a b c d, iter_step orc chunk st' v' e' p' <> SYield r a b c d).
+Proof.
+  induction fuel as [|f IH]; intros orc chunk st v e p acc out t H; cbn [iter_loop] in H.
+  - inversion H; subst. exists [], st, v, e, p. unfold frev. rewrite <- rev_alt, app_nil_r.
+    repeat split; [constructor|left; reflexivity].
+  - destruct (iter_step orc chunk st v e p) as [|r st1 v1 e1 p1|l c|ex] eqn:Hs.
+    + inversion H; subst. exists [], st, v, e, p. unfold frev. rewrite <- rev_alt, app_nil_r.
+      repeat split; [constructor|right; intros; rewrite Hs; discriminate].
+    + apply IH in H. destruct H as [rs [st' [v' [e' [p' [Ho [Hr Ht]]]]]]].
+      exists (r :: rs), st', v', e', p'. cbn [rev] in Ho. rewrite <- app_assoc in Ho.
+      repeat split; [exact Ho|econstructor; eauto|exact Ht].
+    + inversion H; subst. exists [], st, v, e, p. unfold frev. rewrite <- rev_alt, app_nil_r.
+      repeat split; [constructor|right; intros; rewrite Hs; discriminate].
+    + inversion H; subst. exists [], st, v, e, p. unfold frev. rewrite <- rev_alt, app_nil_r.
+      repeat split; [constructor|right; intros; rewrite Hs; discriminate].
+Qed.
+
+(* the nesting history of a list of yielded records *)
+Definition rec_transition (r : record) : option (transition pv) :=
+  if beq (r_id r) GenSections.sec_change then Some (TChange (opt_get "encoding" (r_opts r)))
+  else if beq (r_id r) GenSections.sec_file then Some (TFile (opt_get "encoding" (r_opts r)))
+  else None.
+Fixpoint rec_history (rs : list record) : history pv :=
+  match rs with
+  | [] => []
+  | r :: t => match rec_transition r with Some x => x :: rec_history t | None => rec_history t end
+  end.
+
+Lemma assoc_get_in : forall {V} k (d : list (bytes * V)) v, assoc_get beq k d = Some v -> exists k', In (k', v) d.
+Proof.
+  induction d as [|[k' v'] d IH]; intros v H; cbn in H; [discriminate|].
+  destruct (beq k k'); [inversion H; subst; exists k'; left; reflexivity|].
+  destruct (IH v H) as [k2 Hk]. exists k2. right. exact Hk.
+Qed.
+
+(* the main header is never valid after another section (table fact, by computation) *)
+Lemma no_main_next : forall id v, table_get id = Some v -> in_ids GenSections.sec_main v = false.
+Proof.
+  intros id v H. unfold table_get in H. apply assoc_get_in in H. destruct H as [k Hk].
+  assert (Hall : forallb (fun kv => negb (in_ids GenSections.sec_main (snd kv))) GenSections.valid_states = true)
+    by (vm_compute; reflexivity).
+  rewrite forallb_forall in Hall. specialize (Hall _ Hk). cbn [snd] in Hall.
+  destruct (in_ids GenSections.sec_main v); [discriminate|reflexivity].
+Qed.
+
+Lemma rdecl_dopt : forall opts, rdecl opts = dopt (opt_get "encoding" opts).
+Proof. intros. unfold rdecl, dopt. destruct (opt_get "encoding" opts); reflexivity. Qed.
+
+Lemma rec_transition_cases : forall r,
+  (is_content (r_id r) = true -> rec_transition r = None) /\
+  (r_id r = GenSections.sec_change -> rec_transition r = Some (TChange (opt_get "encoding" (r_opts r)))) /\
+  (r_id r = GenSections.sec_file -> rec_transition r = Some (TFile (opt_get "encoding" (r_opts r)))).
+Proof.
+  intros r. unfold rec_transition. repeat split; intros H.
+  - destruct (beq (r_id r) GenSections.sec_change) eqn:H1; [apply beq_eq in H1; rewrite H1 in H; vm_compute in H; discriminate|].
+    destruct (beq (r_id r) GenSections.sec_file) eqn:H2; [apply beq_eq in H2; rewrite H2 in H; vm_compute in H; discriminate|].
+    reflexivity.
+  - rewrite H. reflexivity.
+  - rewrite H. reflexivity.
+Qed.
+
+Lemma rsteps_history : forall orc chunk st v e p rs st' v' e' p',
+  rsteps orc chunk st v e p rs st' v' e' p' ->
+  in_ids GenSections.sec_main v = false ->
+  Some (e', p') = fold_left rstep (rec_history rs) (Some (e, p)) /\ in_ids GenSections.sec_main v' = false.
+Proof.
+  intros orc chunk st v e p rs st' v' e' p' H. induction H as [|st v e p r st1 v1 e1 p1 rs st2 v2 e2 p2 Hs Hr IH];
+    intros Hv; [split; [reflexivity|exact Hv]|].
+  pose proof (reader_step_valid _ _ _ _ _ _ _ _ _ _ _ Hs) as Hv1. apply no_main_next in Hv1.
+  specialize (IH Hv1). destruct IH as [IH1 IH2]. split; [|exact IH2].
+  apply reader_step_bridge in Hs. destruct Hs as [Hin Hs].
+  destruct (rec_transition_cases r) as [Tc [Tch Tf]]. cbn [rec_history].
+  destruct Hs as [[Hc [He Hp]]|[[Hid _]|[[Hid [_ [He Hp]]]|[Hid [_ [He Hp]]]]]].
+  - subst. rewrite (Tc Hc). exact IH1.
+  - rewrite Hid in Hin. rewrite Hin in Hv. discriminate.
+  - rewrite (Tch Hid). cbn [fold_left rstep decl rlevel]. rewrite <- rdecl_dopt, <- He. subst p1. exact IH1.
+  - rewrite (Tf Hid). cbn [fold_left rstep decl rlevel]. rewrite <- rdecl_dopt, <- He. subst p1. exact IH1.
+Qed.
+
+(* From the start of iter_sections: the first record is the main header and, at every later point, the
+   loop variables (encodings, prev_container_level) are the abstract reader machine run on the history
+   of the container records yielded so far. *)
+Theorem reader_stack_history : forall orc chunk st0 r0 rs st' v' e' p',
+  rsteps orc chunk st0 [GenSections.sec_main] [None] 0 (r0 :: rs) st' v' e' p' ->
+  r_id r0 = GenSections.sec_main /\
+  Some (e', p') = rrun (opt_get "encoding" (r_opts r0)) (rec_history rs).
+Proof.
+  intros orc chunk st0 r0 rs st' v' e' p' H.
+  inversion H as [|? ? ? ? ? st1 v1 e1 p1 ? ? ? ? ? Hs0 Hr]; subst. clear H.
+  pose proof (reader_step_valid _ _ _ _ _ _ _ _ _ _ _ Hs0) as Hv1. apply no_main_next in Hv1.
+  apply reader_step_bridge in Hs0. destruct Hs0 as [Hin Hs].
+  assert (Hid : r_id r0 = GenSections.sec_main).
+  { unfold in_ids in Hin. cbn [mem] in Hin. rewrite orb_false_r in Hin. apply beq_eq. exact Hin. }
+  split; [exact Hid|].
+  destruct Hs as [[Hc _]|[[_ [_ [He Hp]]]|[[Hx _]|[Hx _]]]].
+  - rewrite Hid in Hc. vm_compute in Hc. discriminate.
+  - subst p1. apply rsteps_history in Hr; [|exact Hv1]. destruct Hr as [Hr _].
+    rewrite Hr. unfold rrun, rinit. rewrite <- rdecl_dopt, <- He. reflexivity.
+  - rewrite Hid in Hx. vm_compute in Hx. discriminate.
+  - rewrite Hid in Hx. vm_compute in Hx. discriminate.
+Qed.
+
+(* ... hence the value a preamble or metadata section inherits (the top of the stack, see
+   reader_preamble_encoding / reader_meta_encoding) is the one the specification assigns *)
+Theorem reader_effective_encoding : forall orc chunk st0 r0 rs st' v' e' p',
+  rsteps orc chunk st0 [GenSections.sec_main] [None] 0 (r0 :: rs) st' v' e' p' ->
+  ordered (rec_history rs) ->
+  top e' = Some (spec_effective (opt_get "encoding" (r_opts r0)) (rec_history rs)).
+Proof.
+  intros orc chunk st0 r0 rs st' v' e' p' H Ho.
+  apply reader_stack_history in H. destruct H as [_ H].
+  pose proof (C04_reader_thm (opt_get "encoding" (r_opts r0)) (rec_history rs) Ho) as Hr.
+  rewrite <- H in Hr. destruct e' as [|x t]; [discriminate|]. exact Hr.
+Qed.
+
+(* ---- [ordered] is not an assumption about real runs: the section-order table enforces it ---- *)
+Lemma ordered_snoc_intro : forall {E} (h : history E) t,
+  ordered h -> (is_change t = true \/ h <> []) -> ordered (h ++ [t]).
+Proof.
+  unfold ordered. intros E h t Ho Ht. rewrite ordered_from_snoc, Ho. cbn [andb].
+  destruct Ht as [Ht|Ht]; [rewrite Ht; reflexivity|]. destruct h; [contradiction|]. cbn. apply orb_true_r.
+Qed.
+
+(* ids below a change or a file: those starting with two dots *)
+Definition deep (id : bytes) : bool := bstarts (B "..") id.
+
+(* table fact: only after a change header or a deep section may a deep section follow *)
+Lemma deep_next : forall id v, table_get id = Some v -> existsb deep v = true ->
+  deep id = true \/ id = GenSections.sec_change.
+Proof.
+  intros id v H Hd. unfold table_get in H.
+  assert (Hall : forallb (fun kv => negb (existsb deep (snd kv)) || deep (fst kv) || beq (fst kv) GenSections.sec_change)
+                         GenSections.valid_states = true) by (vm_compute; reflexivity).
+  revert H. induction GenSections.valid_states as [|[k w] d IH]; intros H; cbn in H; [discriminate|].
+  cbn [forallb fst snd] in Hall. apply andb_true_iff in Hall. destruct Hall as [H1 H2].
+  destruct (beq id k) eqn:Hk; [|apply IH; assumption].
+  apply beq_eq in Hk. subst k. inversion H; subst w. rewrite Hd in H1. cbn [negb orb] in H1.
+  apply orb_true_iff in H1. destruct H1 as [H1|H1]; [left; exact H1|right; apply beq_eq; exact H1].
+Qed.
+
+Lemma in_ids_deep : forall id v, in_ids id v = true -> deep id = true -> existsb deep v = true.
+Proof.
+  unfold in_ids. induction v as [|x v IH]; intros H Hd; cbn in *; [discriminate|].
+  apply orb_true_iff in H. destruct H as [H|H].
+  - apply beq_eq in H. subst x. rewrite Hd. reflexivity.
+  - rewrite (IH H Hd). apply orb_true_r.
+Qed.
+
+Lemma rsteps_ordered : forall orc chunk st v e p rs st' v' e' p',
+  rsteps orc chunk st v e p rs st' v' e' p' ->
+  in_ids GenSections.sec_main v = false ->
+  forall h0, (existsb deep v = true -> h0 <> []) -> ordered h0 ->
+  ordered (h0 ++ rec_history rs).
+Proof.
+  intros orc chunk st v e p rs st' v' e' p' H.
+  induction H as [|st v e p r st1 v1 e1 p1 rs st2 v2 e2 p2 Hs Hr IH]; intros Hv h0 Hinv Ho;
+    [rewrite app_nil_r; exact Ho|].
+  pose proof (reader_step_valid _ _ _ _ _ _ _ _ _ _ _ Hs) as Hv1.
+  pose proof (no_main_next _ _ Hv1) as Hnm. specialize (IH Hnm).
+  apply reader_step_bridge in Hs. destruct Hs as [Hin Hs].
+  destruct (rec_transition_cases r) as [Tc [Tch Tf]]. cbn [rec_history].
+  destruct Hs as [[Hc _]|[[Hid _]|[[Hid _]|[Hid _]]]].
+  - rewrite (Tc Hc). apply IH; [|exact Ho].
+    intros Hd. apply Hinv. destruct (deep_next _ _ Hv1 Hd) as [Hdd|Hch].
+    + eapply in_ids_deep; eauto.
+    + rewrite Hch in Hc. vm_compute in Hc. discriminate.
+  - rewrite Hid in Hin. rewrite Hin in Hv. discriminate.
+  - rewrite (Tch Hid). change (?a :: rec_history rs) with ([a] ++ rec_history rs). rewrite app_assoc.
+    apply IH; [intros _; destruct h0; discriminate|]. apply ordered_snoc_intro; [exact Ho|left; reflexivity].
+  - rewrite (Tf Hid). change (?a :: rec_history rs) with ([a] ++ rec_history rs). rewrite app_assoc.
+    apply IH; [intros _; destruct h0; discriminate|]. apply ordered_snoc_intro; [exact Ho|right].
+    apply Hinv. eapply in_ids_deep; [exact Hin|]. rewrite Hid. vm_compute. reflexivity.
+Qed.
+
+Theorem reader_history_ordered : forall orc chunk st0 r0 rs st' v' e' p',
+  rsteps orc chunk st0 [GenSections.sec_main] [None] 0 (r0 :: rs) st' v' e' p' ->
+  ordered (rec_history rs).
+Proof.
+  intros orc chunk st0 r0 rs st' v' e' p' H.
+  pose proof (reader_stack_history _ _ _ _ _ _ _ _ _ H) as [Hid _].
+  inversion H as [|? ? ? ? ? st1 v1 e1 p1 ? ? ? ? ? Hs0 Hr]; subst. clear H.
+  pose proof (reader_step_valid _ _ _ _ _ _ _ _ _ _ _ Hs0) as Hv1.
+  pose proof (no_main_next _ _ Hv1) as Hnm.
+  apply (rsteps_ordered _ _ _ _ _ _ _ _ _ _ _ Hr Hnm []); [|reflexivity].
+  rewrite Hid in Hv1. vm_compute in Hv1. inversion Hv1; subst v1. vm_compute. discriminate.
+Qed.
+
+(* C04 for the reader, unconditionally: at every point of every run of iter_sections the value inherited
+   by a preamble or metadata section is the effective encoding by tree position *)
+Theorem reader_effective_encoding_total : forall orc chunk st0 r0 rs st' v' e' p',
+  rsteps orc chunk st0 [GenSections.sec_main] [None] 0 (r0 :: rs) st' v' e' p' ->
+  top e' = Some (spec_effective (opt_get "encoding" (r_opts r0)) (rec_history rs)).
+Proof.
+  intros. eapply reader_effective_encoding; eauto. eapply reader_history_ordered; eauto.
+Qed.
+
+(* ---- the same for the writer: _validate_section enforces [ordered] ---- *)
+Lemma write_section_header_prev : forall sec o s s', write_section_header sec o s = (s', Ok tt) -> w_prev s' = Some sec.
+Proof.
+  unfold write_section_header, bindM, lift, emit, set_prev. intros sec o s s' H.
+  destruct (render_header sec o); inversion H; reflexivity.
+Qed.
+
+Lemma new_container_prev : forall name level e extra s s' r,
+  new_container_section name level e extra s = (s', r) ->
+  1 <= level -> w_stack s <> [] ->
+  (r = Ok tt /\ validate_section s (build_id (level - 1) name) = Ok tt /\ w_prev s' = Some (build_id (level - 1) name))
+  \/ (exists err, r = Err err /\ s' = s).
+Proof.
+  intros name level e extra s s' r H Hl Hne.
+  unfold new_container_section in H. unfold bindM at 1 in H. unfold get_state at 1 in H.
+  unfold bindM at 1 in H. unfold lift at 1 in H.
+  destruct (validate_section s (build_id (level - 1) name)) as [[]|err]; [|right; inversion H; eauto].
+  unfold bindM at 1 in H.
+  destruct (write_section_header (build_id (level - 1) name) (dict_set "encoding" e extra) s) as [s1 r1] eqn:Hw.
+  pose proof Hw as Hw2.
+  apply write_section_header_stack in Hw. destruct Hw as [Hst Herr].
+  destruct r1 as [[]|err]; [|right; inversion H; subst; exists err; split; [reflexivity|]; eauto].
+  apply write_section_header_prev in Hw2.
+  unfold bindM at 1 in H. unfold get_state at 1 in H. unfold bindM at 1 in H.
+  assert (Hlev : cur_level s1 = cur_level s) by (unfold cur_level; rewrite Hst; reflexivity).
+  rewrite Hlev in H.
+  assert (Hle : cur_level s + 1 - level <= length (w_stack s) - 1) by (unfold cur_level; lia).
+  destruct (pop_n_some (cur_level s + 1 - level) (w_stack s)) as [l' [Hp Hlen]]; [lia|].
+  pose proof (repeatM_pop (cur_level s + 1 - level) s1) as Hr. rewrite Hst, Hp in Hr. rewrite Hr in H.
+  assert (Hl' : l' <> []).
+  { destruct l'; [|discriminate]. cbn [length] in Hlen.
+    assert (length (w_stack s) <> 0) by (destruct (w_stack s); [contradiction|discriminate]). lia. }
+  destruct l' as [|top rest]; [contradiction|].
+  unfold bindM, get_state, lift, cur_encoding, push in H. cbn in H.
+  left. inversion H; subst. cbn. auto.
+Qed.
+
+Lemma new_content_prev : forall name content le enc indent wle inh extra s s' r,
+  new_content_section name content le enc indent wle inh extra s = (s', r) ->
+  (r = Ok tt /\ validate_section s (build_id (cur_level s + 1 - 1) name) = Ok tt /\
+   w_prev s' = Some (build_id (cur_level s + 1 - 1) name))
+  \/ (exists err, r = Err err /\ s' = s).
+Proof.
+  unfold new_content_section, bindM, get_state, lift. intros until r. intros H.
+  destruct (validate_section s _) as [[]|err]; [|right; inversion H; eauto].
+  destruct (prepare_content s content indent le enc inh) as [[body leo]|err]; [|right; inversion H; eauto].
+  match type of H with context[write_section_header ?a ?b s] =>
+    destruct (write_section_header a b s) as [s1 r1] eqn:Hw end.
+  pose proof Hw as Hw2. apply write_section_header_stack in Hw. destruct Hw as [_ Herr].
+  destruct r1 as [[]|err]; [|right; inversion H; subst; exists err; split; [reflexivity|]; eauto].
+  apply write_section_header_prev in Hw2. left. unfold emit in H. inversion H; subst. cbn. auto.
+Qed.
+
+(* the section id a call writes *)
+Definition call_section (c : call) (s : wstate) : bytes :=
+  match c with
+  | NewChange _ => build_id (GenText.writer_level_change - 1) (B "change")
+  | NewFile _ => build_id (GenText.writer_level_file - 1) (B "file")
+  | WritePreamble _ _ _ _ _ => build_id (cur_level s + 1 - 1) (B "preamble")
+  | WriteMeta _ _ _ => build_id (cur_level s + 1 - 1) (B "meta")
+  | WriteDiff _ _ _ _ => build_id (cur_level s + 1 - 1) (B "diff")
+  end.
+
+(* a call either fails leaving the writer exactly as it was, or was validated against the order table *)
+Lemma do_call_prev : forall c s s' r, w_stack s <> [] -> do_call c s = (s', r) ->
+  (r = Ok tt /\ validate_section s (call_section c s) = Ok tt /\ w_prev s' = Some (call_section c s))
+  \/ (exists err, r = Err err /\ s' = s).
+Proof.
+  intros c s s' r Hne H. destruct c; cbn [do_call call_section] in *.
+  - eapply new_container_prev in H; eauto. vm_compute; lia.
+  - eapply new_container_prev in H; eauto. vm_compute; lia.
+  - destruct text; try (right; inversion H; eauto; fail).
+    unfold bindM at 1, lift at 1 in H.
+    destruct (match mimetype with WNone => Ok true | _ => in_strset mimetype GenText.mimetypes end) as [mok|];
+      [|right; inversion H; eauto].
+    destruct (negb mok); [right; inversion H; eauto|]. eapply new_content_prev; eauto.
+  - destruct metadata; try (right; inversion H; eauto; fail).
+    destruct (negb (wv_truthy (WDict j))); [right; inversion H; eauto|].
+    unfold bindM at 1, lift at 1 in H.
+    destruct (in_strset _ GenText.meta_formats) as [fok|]; [|right; inversion H; eauto].
+    destruct (negb fok); [right; inversion H; eauto|].
+    unfold bindM at 1, lift at 1 in H.
+    destruct (json_dump j); [|right; inversion H; eauto]. eapply new_content_prev; eauto.
+  - destruct content; try (right; inversion H; eauto; fail).
+    unfold bindM at 1, lift at 1 in H.
+    destruct (match diff_type with WNone => Ok true | _ => in_strset diff_type GenText.diff_types end) as [tok|];
+      [|right; inversion H; eauto].
+    destruct (negb tok); [right; inversion H; eauto|]. eapply new_content_prev; eauto.
+Qed.
+
+Lemma validate_section_ok : forall s sec, validate_section s sec = Ok tt ->
+  w_prev s = None \/ exists p v, w_prev s = Some p /\ table_get p = Some v /\ in_ids sec v = true.
+Proof.
+  intros s sec H. unfold validate_section in H. destruct (w_prev s) as [p|]; [right|left; reflexivity].
+  destruct (table_get p) as [v|] eqn:Ht; [|discriminate]. destruct (in_ids sec v) eqn:Hi; [|discriminate]. exists p, v. auto.
+Qed.
+
+Lemma content_id_not_change : forall n name, In name [B "preamble"; B "meta"; B "diff"] ->
+  build_id n name <> GenSections.sec_change.
+Proof.
+  intros n name Hin H. cbn [In] in Hin.
+  repeat (destruct Hin as [Hin|Hin]; [subst; destruct n as [|[|n]]; vm_compute in H; discriminate H|]).
+  contradiction.
+Qed.
+
+(* invariant: deep sections may follow the previous section only if a change has been opened *)
+Definition wprev_inv (s : wstate) (h : history wv) : Prop :=
+  exists p, w_prev s = Some p /\ forall v, table_get p = Some v -> existsb deep v = true -> h <> [].
+
+Lemma run_calls_ordered : forall cs s h0,
+  w_stack s <> [] -> wprev_inv s h0 -> ordered h0 ->
+  ordered (h0 ++ ok_history cs (fst (run_calls s cs))).
+Proof.
+  induction cs as [|c cs IH]; intros s h0 Hne Hinv Ho; [cbn; rewrite app_nil_r; exact Ho|].
+  cbn [run_calls]. destruct (do_call c s) as [s' r] eqn:Hd.
+  destruct (do_call_stack c s s' r Hne Hd) as [Hne' _].
+  specialize (IH s'). destruct (run_calls s' cs) as [rs f] eqn:Hrun. cbn [fst ok_history] in *.
+  destruct (do_call_prev c s s' r Hne Hd) as [[Hr [Hval Hprev]]|[err [Hr Hs]]].
+  - (* the call was accepted *)
+    subst r. apply validate_section_ok in Hval. destruct Hinv as [p [Hp Hinv]].
+    destruct Hval as [Hval|[p' [v [Hp' [Hv Hin]]]]]; [congruence|]. rewrite Hp in Hp'. inversion Hp'; subst p'.
+    (* what holds of any accepted section *)
+    assert (Hstep : forall h1, (h0 <> [] -> h1 <> []) ->
+                    (call_section c s = GenSections.sec_change -> h1 <> []) -> wprev_inv s' h1).
+    { intros h1 Hmono Hch. exists (call_section c s). split; [exact Hprev|]. intros v1 Hv1 Hd1.
+      destruct (deep_next _ _ Hv1 Hd1) as [Hdeep|Hc]; [|auto].
+      apply Hmono. apply (Hinv v Hv). eapply in_ids_deep; eauto. }
+    destruct c as [e|e| | |]; cbn [call_transition].
+    + change (?a :: ok_history cs rs) with ([a] ++ ok_history cs rs). rewrite app_assoc.
+      apply IH; [exact Hne'| |apply ordered_snoc_intro; [exact Ho|left; reflexivity]].
+      apply Hstep; intros; destruct h0; discriminate.
+    + change (?a :: ok_history cs rs) with ([a] ++ ok_history cs rs). rewrite app_assoc.
+      assert (Hh0 : h0 <> []).
+      { apply (Hinv v Hv). eapply in_ids_deep; [exact Hin|]. vm_compute. reflexivity. }
+      apply IH; [exact Hne'| |apply ordered_snoc_intro; [exact Ho|right; exact Hh0]].
+      apply Hstep; intros; destruct h0; discriminate.
+    + apply IH; [exact Hne'| |exact Ho]. apply Hstep; [auto|].
+      intros Hc. exfalso. eapply content_id_not_change; [|exact Hc]. cbn; auto.
+    + apply IH; [exact Hne'| |exact Ho]. apply Hstep; [auto|].
+      intros Hc. exfalso. eapply content_id_not_change; [|exact Hc]. cbn; auto.
+    + apply IH; [exact Hne'| |exact Ho]. apply Hstep; [auto|].
+      intros Hc. exfalso. eapply content_id_not_change; [|exact Hc]. cbn; auto.
+  - (* the call was rejected: nothing changed *)
+    subst r s'. destruct (call_transition c); apply IH; assumption.
+Qed.
+
+Lemma writer_init_prev : forall enc ver s, writer_init enc ver = (s, Ok tt) -> wprev_inv s [].
+Proof.
+  intros enc ver s H. unfold writer_init in H.
+  destruct (in_strset ver GenText.versions) as [[|]|]; try (inversion H; fail).
+  eapply new_container_prev in H; [|vm_compute; lia|discriminate].
+  destruct H as [[_ [_ Hp]]|[err [Hr _]]]; [|discriminate].
+  exists (build_id (GenText.writer_level_main - 1) (B "diffx")). split; [exact Hp|].
+  intros v Hv Hd. vm_compute in Hv. inversion Hv; subst v. vm_compute in Hd. discriminate.
+Qed.
+
+Theorem writer_history_ordered : forall enc ver s0 cs,
+  writer_init enc ver = (s0, Ok tt) -> ordered (ok_history cs (fst (run_calls s0 cs))).
+Proof.
+  intros enc ver s0 cs Hi. destruct (writer_init_stack enc ver s0 Hi) as [Hne _].
+  apply (run_calls_ordered cs s0 [] Hne (writer_init_prev enc ver s0 Hi)). reflexivity.
+Qed.
+
+(* C04 for the writer, unconditionally: after any program whatsoever run on a fresh writer, the encoding
+   the next preamble or metadata section inherits is the effective encoding by tree position *)
+Theorem writer_effective_encoding_total : forall enc ver s0 cs,
+  writer_init enc ver = (s0, Ok tt) ->
+  exists top, cur_encoding (snd (run_calls s0 cs)) = Ok top /\
+              wdecl top = spec_effective (wdecl enc) (ok_history cs (fst (run_calls s0 cs))).
+Proof.
+  intros. eapply writer_effective_encoding; eauto. eapply writer_history_ordered; eauto.
+Qed.
+
+(* ---- concrete runs of the real models ---- *)
+Definition ex_utf8 : wv := WStr (ascii_text (B "utf-8")).
+Definition ex_latin1 : wv := WStr (ascii_text (B "latin-1")).
+Definition ex_calls : list call :=
+  [ NewChange ex_latin1;
+    WritePreamble (WStr (ascii_text (B "hello"))) WNone None WNone WNone;
+    NewFile WNone;                                   (* inherits latin-1 from its change *)
+    WriteMeta (WDict (JObj [(ascii_text (B "k"), JStr (ascii_text (B "v")))])) WNone None;
+    NewFile ex_latin1;                               (* rejected: a file's metadata has not been followed by a diff *)
+    WriteDiff (WBytes (B "--- a")) WNone WNone WNone;
+    NewChange WNone ].                               (* sibling change: back to main's utf-8 *)
+
+Example ex_writer_run :
+  exists s0, writer_init ex_utf8 (WStr (ascii_text (B "1.0"))) = (s0, Ok tt) /\
+    map fst (fst (run_calls s0 ex_calls)) = [Ok tt; Ok tt; Ok tt; Ok tt; Err ELibOrder; Ok tt; Ok tt] /\
+    ok_history ex_calls (fst (run_calls s0 ex_calls)) = [TChange (Some ex_latin1); TFile None; TChange None] /\
+    cur_encoding (snd (run_calls s0 ex_calls)) = Ok ex_utf8 /\
+    cur_encoding (snd (run_calls s0 (firstn 3 ex_calls))) = Ok ex_latin1.
+Proof. eexists. split; [vm_compute; reflexivity|]. vm_compute. repeat split; reflexivity. Qed.
+
+Definition ex_stream : bytes :=
+  B "#diffx: encoding=utf-8, version=1.0" ++ [x0a] ++
+  B "#.change: encoding=latin-1" ++ [x0a] ++
+  B "#..preamble: length=3" ++ [x0a] ++ B "hi" ++ [x0a] ++
+  B "#..file:" ++ [x0a] ++
+  B "#...meta: length=3" ++ [x0a] ++ B "{}" ++ [x0a] ++
+  B "#...diff: length=2" ++ [x0a] ++ B "x" ++ [x0a] ++
+  B "#.change:" ++ [x0a] ++
+  B "#..preamble: length=3" ++ [x0a] ++ B "ho" ++ [x0a].
+Definition ex_oracle : oracle := [(oracle_key_text (ascii_text (B "{}" ++ [x0a])), LoadsOk (JObj []))].
+
+Example ex_reader_run :
+  exists rs, fst (read_all ex_oracle default_chunk ex_stream) = rs /\ snd (read_all ex_oracle default_chunk ex_stream) = TEnd /\
+    map r_id rs = [B "diffx"; B ".change"; B "..preamble"; B "..file"; B "...meta"; B "...diff"; B ".change"; B "..preamble"] /\
+    rec_history (tl rs) = [TChange (Some (VStr (B "latin-1"))); TFile None; TChange None].
+Proof. eexists. split; [reflexivity|]. vm_compute. repeat split; reflexivity. Qed.
+
+Example ex_reader_rsteps :
+  exists r0 rs st' v' e' p',
+    rsteps ex_oracle default_chunk {| st_stream := {| s_data := ex_stream; s_pos := 0 |}; st_linenum := 0%Z; st_fnl := None |}
+           [GenSections.sec_main] [None] 0 (r0 :: rs) st' v' e' p' /\
+    List.length rs = 6 /\
+    e' = [Some (VStr (B "utf-8")); Some (VStr (B "utf-8")); None] /\ p' = 1.
+Proof.
+  do 6 eexists. split.
+  - do 7 (eapply rsteps_cons; [vm_compute; reflexivity|]). apply rsteps_nil.
+  - vm_compute. repeat split; reflexivity.
+Qed.
